@@ -340,6 +340,10 @@ def _execute(plan, sim, world, IoContract, Var, IncompatibleArgsError, stub, tra
             pool.append(None)
             outcomes.append(kind + ":" + status)
             signatures.append((kind, status, kinds))
+            # a call that raises must leave its operands meaning what they meant: a later operation on a silently
+            # altered operand returns a contract that is unsound with respect to what the caller composed
+            if _sem(l) != (la, lg) or _sem(r) != (ra, rg):
+                violations.append({"property": PROP, "oracle": "operand_changed_meaning", "op": kind, "op_index": k, "witness": None})
             continue
         returned += 1
         if not isinstance(res, IoContract):
